@@ -15,7 +15,7 @@ from pathlib import Path
 
 ROOT = Path(__file__).resolve().parent.parent
 SPEC = ROOT / "spec"
-WORK = ROOT / ".work"
+WORK = Path(os.environ["VERIF_WORK_DIR"]) if os.environ.get("VERIF_WORK_DIR") else ROOT / ".work"
 JAR = "/opt/veriftools/tla/tla2tools.jar"
 DEPS = "/opt/veriftools/tla/CommunityModules-deps.jar"
 
